@@ -18,6 +18,7 @@ EXPLANATION = (
     "caller's context; R1.8 every poll body forwards only the caller's context or one built from a dequeued slot waker. "
     "Decides the ordering shape on all CFG paths; does NOT decide sufficiency under weak-memory interleavings or the "
     "internals of cordyceps/diatomic-waker/spin.")
+WITNESSES = "thorough"  # E3 compile_fail witnesses (tier in which they run)
 ASSUMPTIONS = [
     "dev-profile MIR at mir-opt-level=0 represents the source (thorough: also without debug assertions, with --cfg miri)",
     "cordyceps::MpscQueue, diatomic_waker::DiatomicWaker and spin::SpinMutex behave as documented",
